@@ -30,6 +30,10 @@ type Spec struct {
 	GoBin      string
 	TestBinary bool
 	GenN       int // C03: programs per generated batch
+	// CrashOracle: when a worker process dies (Go runtime fatal error in the
+	// code under test), re-execute the plan it was running; if the crash
+	// reproduces it is reported as a violation with this oracle id.
+	CrashOracle string
 	// ExtraBuild: an additional binary built with the same overlay: import
 	// path -> environment variable that tells the driver where it is.
 	ExtraBuild   map[string]string
@@ -167,10 +171,12 @@ var specs = map[string]*Spec{
 	"C16": {
 		ID: "C16", Title: "Remaining machine primitives meet their modelled contracts (WaitTimeout clause)",
 		Driver: "./drivers/c16drv", ModFile: "go.mod", GoBin: "/opt/veriftools/go1.26.8/bin/go", TestBinary: true,
-		Flavours: []string{"plain"},
-		Quick:    TierParams{Runs: 40000, Budget: 5 * time.Minute},
-		Thorough: TierParams{Budget: 10 * time.Minute},
-		Level:    "exploration",
+		CrashOracle: "wt.crash",
+		Rewrites:    []RewriteSpec{{Dir: "machine", Files: []string{"prims.go"}, Opt: rewrite.Options{Yields: true, YieldCall: "synyield.Point", YieldImport: "verif/synyield"}}},
+		Flavours:    []string{"plain"},
+		Quick:       TierParams{Runs: 40000, Budget: 5 * time.Minute},
+		Thorough:    TierParams{Budget: 10 * time.Minute},
+		Level:       "exploration",
 		Rule: "each plan is one sync.Cond, a sequence of 1-3 machine.WaitTimeout calls (timeouts 0,1,2,10,100,10000,2^32 ms or random < 300 ms; optional pauses with the lock released between calls) and 0-4 concurrent events at distinct simulated instants aimed before / just before / just after / long after a timeout: Signal, Broadcast, or a plain cond.Wait waiter; executed with the real machine.WaitTimeout -> primitive.WaitTimeout, real sync and time under testing/synctest's fake clock (go1.26.8). " +
 			"Oracles against an ideal timed wait on a FIFO condition variable: returns holding the lock (TryLock fails), within 1 ms of simulated time after the timeout, within 1 ms after the Broadcast/Signal that reaches it, never panics, the bubble drains. Every 64th plan is the auxiliary, non-simulation assertion set for the three pure clauses (UInt64ToString, MapClear, Assume/Assert); it is not counted as non-trivial. " +
 			"Non-trivial: at least one concurrent event or more than one call; distinct = distinct (plan, observed return times).",
